@@ -136,7 +136,7 @@ def build(tier, seed):
         def gen(unit):
             fn = unit.by_name[unit.resolve_name('d_%d' % k)]
             ret, cname, cps = F.cparams(fn['sig'])
-            t = F.PRELUDE_C + 'void h_default_%d(void)\n{\n' % k + F.operand_decl(cps[0][0], 'x', 0)
+            t = F.PRELUDE_C + F.ext_models(unit) + 'void h_default_%d(void)\n{\n' % k + F.operand_decl(cps[0][0], 'x', 0)
             t += '  int r = %s(x);\n' % cname
             t += '  __CPROVER_assert(r != -2, "C06 default hook of %s: hands the node, exactly once, to one other hook");\n' % h['cls']
             t += '  __CPROVER_assert(r == 1, "C06 default hook of %s: forwards to the hook of the nearest abstract super-category declared in the interface");\n  IPR_CANARY_POINT();\n}\n' % h['cls']
